@@ -120,6 +120,7 @@ COLLIDER_TYPES = ["Sphere", "Ellipsoid", "Capsule", "Cylinder", "Cone", "Box", "
 _OCTA = np.array([[1, 0, 0], [-1, 0, 0], [0, 1, 0], [0, -1, 0], [0, 0, 1], [0, 0, -1]], dtype=float)
 _OCTA_TRI = np.array([[0, 2, 4], [2, 1, 4], [1, 3, 4], [3, 0, 4], [2, 0, 5], [1, 2, 5], [3, 1, 5], [0, 3, 5]])
 _CUBE = np.array([[x, y, z] for x in (-1, 1) for y in (-1, 1) for z in (-1, 1)], dtype=float)
+_CUBE_TRI = None
 
 
 def collider_spec(rng, lattice, types=None, margin_prob=0.0, scale=1.0):
@@ -143,6 +144,18 @@ def collider_spec(rng, lattice, types=None, margin_prob=0.0, scale=1.0):
     elif t == "ConvexHullVertices":
         verts = _CUBE * np.array([s(), s(), s()]) * 0.5
         spec = (t, np.ascontiguousarray(verts.dot(A[:3, :3].T) + A[:3, 3]))
+    elif rng.random() < 0.35:
+        # a cube mesh whose vertex array starts with a point that no triangle references (a vertex list that carries an
+        # interior point of the scanned cloud): it sits inside the cube near one corner, outside the hull of the six
+        # axis-extreme vertices. The shape is the cube; index 0 is not part of the surface.
+        global _CUBE_TRI
+        if _CUBE_TRI is None:
+            from scipy.spatial import ConvexHull
+            _CUBE_TRI = np.asarray(ConvexHull(_CUBE).simplices, dtype=int)
+        half = 0.5 * np.array([s(), s(), s()])
+        corner = _CUBE[rng.randrange(8)]
+        verts = np.vstack((0.9 * corner * half, _CUBE * half))
+        spec = (t, A, np.ascontiguousarray(verts), _CUBE_TRI + 1)
     else:
         spec = (t, A, np.ascontiguousarray(_OCTA * np.array([s(), s(), s()])), _OCTA_TRI.copy())
     if rng.random() < margin_prob:
